@@ -13,7 +13,7 @@ Definition asem (a : atom) : jv :=
   | AQ b => JStr b
   | ATrue => JBool true
   | AFalse => JBool false
-  | ARaw t => match parse t with Some j => j | None => JNull end
+  | ARaw t => match p_value (length t) t with Some (j, _) => j | None => JNull end
   end.
 (* n = the fuel the token needs (1 for flat tokens; a reflected JSON text needs at most its length) *)
 Definition parses_as (n : nat) (t : bytes) (j : jv) : Prop :=
